@@ -285,6 +285,12 @@ def main():
         replay = json.load(open(a.replay))
         seed = replay.get("seed", seed)
         tier = replay.get("tier", tier)
+    # several checks may run at once; a seeded-change experiment (tools/try_mutant.sh) takes this lock
+    # exclusively while /repo is modified, ordinary runs share it
+    os.makedirs(BUILD, exist_ok=True)
+    repo_lock = open(os.path.join(BUILD, "repo.lock"), "w")
+    if not os.environ.get("VERIF_REPO_LOCKED"):
+        fcntl.flock(repo_lock, fcntl.LOCK_SH)
     t0 = time.time()
     breaks = []          # broken proof obligations / ties / correspondences (not yet violations)
     failing = []         # concrete failing inputs on the implementation (direct oracles)
